@@ -44,6 +44,7 @@ RULE = ("Hypothesis-generated (a) assignment histories over the documented key t
         "accepted value whose representation type differs from the documented type, "
         "or a storage round trip (file or text); distinct = sha1 of the spec")
 BUDGET = {"quick": 2400, "thorough": 48000}
+TIMEOUT = {"quick": 3000, "thorough": 8 * 3600}  # safety net only (shared box)
 ESSENTIAL = ["route:item", "route:update", "route:kwupdate", "route:cfgupdate",
              "route:ctor", "status:ok-crosstype", "status:lenient", "status:reject",
              "kind:str", "kind:lcstr", "kind:float", "kind:int", "kind:bool",
